@@ -1,4 +1,4 @@
-HOOK_COMMITS = ["74bf6ff", "82c1591", "9aba3ab", "7b80cf4", "aa851e5", "4f43e9e"]
+HOOK_COMMITS = ["74bf6ff", "82c1591", "9aba3ab", "7b80cf4", "aa851e5", "4f43e9e", "0d9cb6c", "ac67f30"]
 
 ALL = ["C%02d" % i for i in range(1, 21)]
 
@@ -10,8 +10,9 @@ SEQ_TECH = "Coq refinement proof (congruence of the concrete step w.r.t. live co
 
 MAINT_NOTE = ("Trusted: Coq kernel; extraction; OCaml replayer; Go harness; the hook verifPoint(1) and VerifAudit (tag verif). Modelled, not verified: "
               "floating-point window sizing and hill climber (maxima <= 12 in the closed-loop engine), maphash (hashes read from the implementation), the striped read buffer as one ring. "
-              "The all-event-lists invariant (C05_inv) is not yet a Coq theorem in this revision: the theorems cover the eviction loop, the repaired update and the sweep decision; "
-              "everything else rests on the closed-loop correspondence (every deque, counter and bucket after every operation) and the view oracles.")
+              "Proved over all event lists: the policy bookkeeping invariant with tasks reaching the write buffer in any order (PolicyInv.v, C05) and the timer-wheel placement invariant (WheelInv.v, C13). "
+              "Not a theorem: that the eviction loop always restores the bound (fuel / cursor exhaustion, C04_loop_exit_partial) — that part rests on the closed-loop correspondence (every deque, counter "
+              "and bucket after every operation, every eviction predicted) and on the bound oracle evaluated on the implementation at every quiescent point.")
 MAINT_TECH = "Coq proof (loop-step lemmas, invariants) over an executable policy/wheel model + closed-loop model/implementation replay with internal-state audit"
 
 LOAD_NOTE = ("Trusted: Coq kernel, extraction, OCaml replayer, Go harness with a gated loader. The protocol model's steps are the code's atomic sections (one hashmap.Compute each); their atomicity is C15's business and is "
@@ -62,7 +63,10 @@ TEXTS = {
                      "cursors exhausted; an oversized node is evicted by the task that introduces it. The implementation's policy is replayed in a closed loop by the extracted model (all deques/counters compared "
                      "after every operation, every eviction predicted) and the bound is checked on the implementation at every quiescent point, including after SetMaximum.",
                design_ref="DESIGN.md section 5, C04", note=MAINT_NOTE, technique=MAINT_TECH),
-    "C05": dict(text="Coq theorems on the repaired policy.update (out-of-order tasks fall back to delete+add; weights immutable) with the original defect's witnesses replayed on the model; closed-loop correspondence of "
+    "C05": dict(text="Coq theorems (PolicyInv.v) over ALL event lists of the maintenance model — index actions creating add/update/delete tasks, tasks reaching the write buffer in ANY order, reads, maintenance runs, SetMaximum: "
+                     "a bookkeeping invariant (deques duplicate-free and disjoint, tags match, no dead node linked, alive+consumed implies linked, the three wrapping counters = sums over the node store with coefficient "
+                     "[task consumed]-[dead]) holds in every reachable state, and whenever no task is pending the deques hold exactly the alive nodes, each once, and weightedSize / windowWeightedSize / "
+                     "mainProtectedWeightedSize equal (mod 2^64) the weights linked in all deques / window / protected. Also: the repaired policy.update (out-of-order tasks fall back to delete+add) with the original defect's witnesses replayed on the model; closed-loop correspondence of "
                      "deques, three counters, wheel buckets and node states after every operation; implementation-only oracles at quiescence: WeightedSize = sum of weights, EstimatedSize = table size, "
                      "Hottest = Coldest = All as sets, every present entry linked exactly once in the eviction and expiration policies, no removed entry tracked.",
                design_ref="DESIGN.md section 5, C05", note=MAINT_NOTE, technique=MAINT_TECH),
@@ -72,10 +76,12 @@ TEXTS = {
     "C07": dict(text="Coq theorems: Overflow only from a state with total weight > maximum (or an oversized entry), never weight 0; Expiration only if the current deadline lies strictly before the sweep's time; the index accepts an "
                      "automatic removal only for the node it holds. Every automatic removal of the implementation is predicted exactly by the closed-loop model, and each Overflow removal is checked against the model's total weight.",
                design_ref="DESIGN.md section 5, C07", note=MAINT_NOTE, technique=MAINT_TECH),
-    "C13": dict(text="Coq theorems on the timer-wheel model with the real constants: the sweep expires exactly the timers whose current deadline lies before the wheel's time; an already-due timer (stale-clock write) is placed in the current "
-                     "tick's bucket; concrete multi-level/multi-revolution instances. The implementation's wheel is compared bucket by bucket with the model after every operation and every Expiration removal is predicted; the "
+    "C13": dict(text="Coq theorems (WheelInv.v) on the timer-wheel model with the real constants, for EVERY wheel reachable by any sequence of links (any deadline, including deadlines already behind the wheel's time: "
+                     "the stale-clock write), unlinks and sweeps at any monotone clock values (any jump): the placement invariant holds; a sweep hands to expireNode every linked timer whose placement key (later of deadline and "
+                     "wheel time at link) lies in an earlier tick and whose current deadline is before the sweep time; it expires only due timers and loses none. Also the sweep decision per bucket and the placement of "
+                     "already-due timers; concrete multi-level/multi-revolution instances. The implementation's wheel is compared bucket by bucket with the model after every operation and every Expiration removal is predicted; the "
                      "unswept-after-one-tick oracle runs on the implementation at every quiescent point.",
-               design_ref="DESIGN.md section 5, C13", note=MAINT_NOTE + " The stale-clock interleaving itself (write sampling the clock before a sweep) needs two goroutines: see the sched engine when present.", technique=MAINT_TECH),
+               design_ref="DESIGN.md section 5, C13", note=MAINT_NOTE + " The stale-clock interleaving (a write samples the clock, maintenance runs at a later clock value, the write proceeds) is produced deterministically through the Clock interface (STALE writes of the maint engine).", technique=MAINT_TECH),
     "C19": dict(text="Coq theorems on LoadCacheFrom's per-entry program: an unexpired entry is loaded with the saved key, value and expiration deadline for any number of warm-up reads and any read calculator; nothing with deadline <= now is loaded. "
                      "Harness: save -> clock offset -> load into a fresh cache of the same configuration (same/larger/smaller maximum), compared entry by entry.",
                design_ref="DESIGN.md section 5, C19", note=SEQ_NOTE + " gob is modelled as the identity; Hottest's order is the policy's.", technique=SEQ_TECH),
